@@ -885,10 +885,19 @@ func (m *M) APIUnlock(pid string) {
 func (m *M) APIUpdatePassword(pid, pw string) {
 	m.learnPW(pw)
 	u, err := m.W.Store.Load(nil, pid)
+	var uerr error
 	if err == nil {
-		m.W.AB.UpdatePassword(nil, u.(authboss.AuthableUser), pw)
+		uerr = m.W.AB.UpdatePassword(nil, u.(authboss.AuthableUser), pw)
 	}
 	m.Out.Add("m updpw "+wire.Hex(pid)+" "+wire.Hex(pw), "ok "+m.StoreLine())
+	if err == nil && uerr == nil {
+		if n := len(m.W.Store.Tokens[pid]); n != 0 {
+			m.violate("C06", "update-tokens-kept", fmt.Sprintf("UpdatePassword(%q) reported success but %d remember token(s) of that account still work", pid, n), "")
+		}
+		if su := m.W.Store.Users[pid]; su == nil || bcrypt.CompareHashAndPassword([]byte(su.Password), []byte(pw)) != nil {
+			m.violate("C06", "update-hash", "UpdatePassword reported success but the stored hash does not verify the new password", "")
+		}
+	}
 }
 
 // SetCookie lets the adversary plant an arbitrary rm cookie value ("" = remove).
